@@ -40,7 +40,9 @@ CFG = {
             "(thorough; quick: every 3rd position and every subsection end), the rest of the table and a trailer lying behind the view - a described legal table (exactly the complete subsections) where the "
             "cut falls on a subsection end, raw elsewhere - and 3 four-row streams (W [1 2 1], [0 1 0], [2 4 3]) with the view ending at every byte of the rows, the remaining rows behind it (rejected unless complete); "
             "all 125 width triples {0..4}^3 x with/without /Index x random rows (plus truncated rows, a type byte "
-            "above 2, a wide type field with non-zero high bytes and a legal low byte, Flate with none/Predictor 1/PNG-Up at two compression levels); 44 single-field corruptions of the stream "
+            "above 2, a wide type field with non-zero high bytes and a legal low byte, Flate with none/Predictor 1/PNG-Up at two compression levels); the compressor's WINDOW varied (seed C06_8: a conformant zlib stream may declare any window 2^8..2^15, RFC 1950 CINFO 0..7, first byte 08 / 18 / .. / 78) - "
+            "xz modes <p>a..<p>g = real zlib with deflateInit2 windowBits 9..15 (headers 18 xx .. 78 xx), <p>h = header 08 99 on a stream of at most 256 bytes - x {no parameters, /Predictor 1, PNG Up} x {plain, /Index} and on the large table "
+            "(32 cases + view twins; corpus zlib_windows.case); 44 single-field corruptions of the stream "
             "dictionary; n random legal tables (1-4 subsections, random starts up to 2^63-1000, leading zeros, blanks, header EOLs, "
             "0-5 entries, 3 terminators) each with 2 (quick) or all 26 (thorough) single-field corruptions (incl. sign/blank in the number fields) of one entry, one "
             "random byte alteration, one truncation and one shifted start; header oddities; one large table and stream. "
